@@ -397,7 +397,7 @@ impl<'a> LeafNodeMut<'a> {
         self.free_end() - self.free_start()
     }
 
-    fn frag_bytes(&self) -> u8 {
+    fn frag_bytes(&self) -> u16 {
         let header = PageHeader::from_bytes(self.data).unwrap(); // INVARIANT: page validated in from_page/init constructor
         header.frag_bytes()
     }
@@ -610,7 +610,7 @@ impl<'a> LeafNodeMut<'a> {
         header.set_cell_count(cell_count as u16 - 1);
         header.set_free_start(header.free_start() - SLOT_SIZE as u16);
 
-        let new_frag = header.frag_bytes().saturating_add(cell_size as u8);
+        let new_frag = header.frag_bytes().saturating_add(cell_size as u16);
         header.set_frag_bytes(new_frag);
 
         if self.should_compact() {
@@ -724,7 +724,7 @@ impl<'a> LeafNodeMut<'a> {
         let freed = old_total_size - new_total_size;
 
         let header = PageHeader::from_bytes_mut(self.data)?;
-        let new_frag = header.frag_bytes().saturating_add(freed as u8);
+        let new_frag = header.frag_bytes().saturating_add(freed as u16);
         header.set_frag_bytes(new_frag);
 
         Ok(())
